@@ -92,13 +92,14 @@ def option_deck(rng, n):
 
 def gen_case(rng, quick, kind, st=None):
     """kind: 'trace' (any D, all options) | 'exact' (maximal bond dimension, dense comparison)
-    st: optional stratum {"method", "subtract_E", "precompute", "conserve"} fixing the option combination (option_deck);
+    st: optional stratum {"method", "subtract_E", "precompute", "conserve", "N"} fixing the option combination (option_deck);
     "conserve" selects the regime of the conservation clause: real time and, for 2-site updates, a truncation that cannot bind"""
     st = st or {}
     family, sym = rng.choice(FAMILIES)
     N = rng.choice([2, 3, 4, 5] if quick else [2, 3, 4, 5, 6])
     if kind == "exact":
         N = rng.choice([2, 3, 4] if quick else [2, 3, 4, 5])
+    N = st.get("N") or N
     cplx = rng.random() < 0.3
     times, dt, tk = gen_times(rng, quick)
     method = st.get("method") or rng.choice(METHODS)
@@ -529,8 +530,11 @@ def order_case(ctx, rng, quick):
             "precompute": rng.random() < 0.5, "hfac": gen_hfac(rng, 1)}
     guard = 2 * GUARD_S[0 if ctx.quick else 1]   # four tdvp_ runs + four solve_ivp references, regularly 2 - 5 s together
     try:
-        with base.time_limit(guard):
+        with base.time_limit(guard), WorkGuard():
             res = run_order_case(case)
+    except CaseWork as e:
+        work_abort(ctx, case, e)
+        return
     except base.CaseTimeout:
         ctx.count("case_timeouts")
         ctx.extra["c10_lost_s"] = ctx.extra.get("c10_lost_s", 0) + guard
@@ -599,20 +603,143 @@ def run_order_case(case):
 
 # ==========================================================================================================
 
-GUARD_S = (8, 60)           # wall-clock guard per case (quick, thorough); regular cases take 0.05 - 4 s
-REFUND_CAP_S = (32, 240)    # at most this much time lost in guarded cases is handed back to the budget
+GUARD_S = (20, 90)          # wall-clock guard per case (quick, thorough); regular cases take 0.05 - 4 s
+REFUND_CAP_S = (40, 270)    # at most this much time lost in guarded cases is handed back to the budget
+WORK_BOUND = 500            # applications of the local generator / iterations of the step-size loop inside ONE expmv call
+                            # (observed on regular cases: <= 11 applications, a handful of iterations)
+
+
+class CaseWork(BaseException):
+    """deterministic work guard of one real run (BaseException for the same reason as CaseTimeout)"""
+
+    def __init__(self, probe):
+        super().__init__("work bound")
+        self.probe = probe
+
+
+class WorkGuard:
+    """While active, `expmv` as seen by yastn/tn/mps/_tdvp.py (module global) and `Tensor.expand_krylov_space` are wrapped
+    (no source edit) to count, per expmv call, the applications of the local generator and the iterations of expmv's
+    step-size loop (one expand_krylov_space call each); the run is abandoned at WORK_BOUND of either.  A local update that
+    needs hundreds of times the regular work would otherwise only be stopped by the wall-clock guard, 20 s later.  Like a
+    timeout this is never a verdict by itself; the offending local problem (f, v, options) is kept for
+    `local_generator_contract`."""
+
+    def __init__(self, bound=WORK_BOUND):
+        self.bound = bound
+        self.cur = None
+
+    def __enter__(self):
+        from yastn.tn.mps import _tdvp
+        from yastn.tensor import Tensor
+        self._mod, self._orig = _tdvp, _tdvp.expmv
+        self._cls, self._oexp = Tensor, Tensor.__dict__["expand_krylov_space"]
+        guard = self
+
+        def expmv(f, v, t=1., **kw):
+            cur = {"f": f, "v": v, "t": t, "hermitian": bool(kw.get("hermitian", False)), "ncv": kw.get("ncv"),
+                   "applications": 0, "iterations": 0}
+
+            def g(x):
+                cur["applications"] += 1
+                if cur["applications"] > guard.bound:
+                    raise CaseWork(cur)
+                return f(x)
+            prev, guard.cur = guard.cur, cur
+            try:
+                return guard._orig(g, v, t, **kw)
+            finally:
+                guard.cur = prev
+
+        def expand(self_, *a, **k):
+            cur = guard.cur
+            if cur is not None:
+                cur["iterations"] += 1
+                if cur["iterations"] > guard.bound:
+                    raise CaseWork(cur)
+            return guard._oexp(self_, *a, **k)
+        _tdvp.expmv = expmv
+        Tensor.expand_krylov_space = expand
+        return self
+
+    def __exit__(self, *exc):
+        self._mod.expmv = self._orig
+        self._cls.expand_krylov_space = self._oexp
+        return False
+
+
+def local_generator_contract(probe):
+    """preconditions of the Krylov solver on the local problem it could not finish: the generator handed to expmv must be a
+    LINEAR map (dA/dt = -u Heff A; subtract_E only shifts it by a multiple of the identity) and, as declared to the solver
+    through opts_expmv['hermitian'], Hermitian.  Returns a list of violated preconditions (relative defects, round-off is
+    ~1e-15; reported above 1e-8)."""
+    from yastn import vdot
+    f, x = probe["f"], probe["v"]
+    nx = float(x.norm())
+    if not nx > 0:
+        return []
+    x = x / nx
+    fx = f(x)
+    y = fx - vdot(x, fx) * x            # second Krylov vector: same space, generically independent of x
+    ny = float(y.norm())
+    if not ny > 1e-12:
+        return []                       # x is an eigenvector: no second direction at hand, nothing to examine
+    y = y / ny
+    fy = f(y)
+    a, b = 0.7, -1.3
+    bad = []
+    scale = max(float(fx.norm()), float(fy.norm()), 1e-300)
+    lin = float((f(a * x + b * y) - (a * fx + b * fy)).norm()) / scale
+    if lin > 1e-8:
+        bad.append(f"not linear: |f(a x + b y) - a f(x) - b f(y)| / max|f| = {lin:.3e} (a={a}, b={b})")
+    hom = float((f(2.0 * y) - 2.0 * fy).norm()) / scale
+    if hom > 1e-8:
+        bad.append(f"not homogeneous: |f(2 y) - 2 f(y)| / max|f| = {hom:.3e}")
+    if probe["hermitian"]:
+        her = abs(complex(vdot(x, fy)) - complex(vdot(y, fx)).conjugate()) / scale
+        if her > 1e-8:
+            bad.append(f"not Hermitian although declared so: |<x,f(y)> - conj<y,f(x)>| / max|f| = {her:.3e}")
+    return bad
 
 
 def elapsed(ctx, t0):
     return time.time() - t0 - min(ctx.extra.get("c10_lost_s", 0), REFUND_CAP_S[0 if ctx.quick else 1])
 
 
+def work_abort(ctx, case, e):
+    """a run abandoned by the work guard: dropped like a timeout, after the solver's preconditions were examined"""
+    import json
+    ctx.count("case_workbound")
+    short = {k: v for k, v in case.items() if k not in ("terms", "terms_a", "terms_b")}
+    try:
+        with base.time_limit(10):
+            bad = local_generator_contract(e.probe)
+    except base.CaseTimeout:
+        bad = []
+    except Exception as ex:
+        ctx.notes.append(f"work guard: the local problem could not be examined ({type(ex).__name__}: {ex})")
+        bad = []
+    p = e.probe
+    if bad:
+        ctx.fail("contract", "c10:local-generator", f"one expmv call of a local update was abandoned after {p['applications']} applications "
+                 f"of its generator / {p['iterations']} iterations of the step-size loop (regular: <= 11 / a handful) and the generator "
+                 f"handed to expmv is " + "; ".join(bad), case=case)
+    else:
+        ctx.notes.append(f"case dropped by the work guard: one expmv call (vector of {p['v'].size} stored elements, ncv={p['ncv']}, "
+                         f"t={p['t']!r}) did not finish within {WORK_BOUND} {'applications' if p['applications'] > WORK_BOUND else 'iterations'} "
+                         f"({p['applications']} applications of a linear, Hermitian local generator, {p['iterations']} iterations of the "
+                         f"step-size loop): {json.dumps(short)}")
+
+
 def run_case(ctx, case):
     import json
     guard = GUARD_S[0 if ctx.quick else 1]
     try:
-        with base.time_limit(guard):
+        with base.time_limit(guard), WorkGuard():
             res = run_tdvp(case)
+    except CaseWork as e:
+        work_abort(ctx, case, e)
+        return None
     except base.CaseTimeout:
         # observed on the unchanged code: expmv caps the Krylov dimension by the number of STORED elements of a block-sparse
         # vector (ncv_max = min(30, v.size)); on nearly-product symmetric states a 2-site problem then needs ~1e5 tiny steps.
@@ -716,16 +843,23 @@ def search(ctx, broken, budget_s):
             ctx.drv = None
     except Exception:
         ctx.drv = None
+    # option combinations of the inputs on which something broke (e.g. runs abandoned by the work guard whose local generator
+    # violates the solver's preconditions): explored first, on the larger chains, where the local problems are big enough for
+    # the run to finish and the dense oracles to apply
+    hints = [{k: f.case[k] for k in ("method", "subtract_E", "precompute")} for f in broken
+             if isinstance(f.case, dict) and f.case.get("kind") in ("trace", "exact")]
     i = 0
     while time.time() - t0 < budget_s and not any(f.concrete for f in ctx.findings):
         i += 1
-        if i % 4 == 0:
+        if i % 4 == 0 and not (hints and i % 8):
             order_case(ctx, rng, True)
         else:
             kind = rng.choice(["trace", "exact", "exact"])
             st = option_deck(rng, 1)[0]
+            if hints and i % 4:
+                st = dict(rng.choice(hints), N=rng.choice([3, 4, 4] if kind == "exact" else [4, 5]))
             if kind == "trace":
-                st = dict(st, conserve=True) if i % 3 == 0 else None
+                st = dict(st, conserve=True) if (hints or i % 3 == 0) else None
             case = gen_case(rng, True, kind, st)
             if i % 3 == 0:
                 case["callable_H"] = False
